@@ -460,8 +460,11 @@ def run(repo: Repo, rep: Report, tier: str) -> None:
         else:
             rep.ok("DB-KIND", f_, f"{f_.name}: arguments", "not modified", nontrivial=False)
     # the noise of successive uses is independent: no fork / re-seed / state restore around the draws
-    from ..speciallint import lint_rng_discipline
+    from ..speciallint import lint_falsy_default, lint_rng_discipline
 
+    for c_ in repo.module(AN).classes.values():
+        if c_.methods.get("__init__") is not None:
+            n += lint_falsy_default(rep, c_.methods["__init__"], "VARIANCE-LAW")
     mi_ = repo.module(AN)
     for f_ in list(mi_.functions.values()) + [m_ for c_ in mi_.classes.values() if c_.name in ("AWGNChannel", "LaplacianChannel", "PhaseNoiseChannel", "PoissonChannel", "NonlinearChannel") for m_ in c_.methods.values() if m_.name != "__init__"]:
         n += lint_rng_discipline(rep, f_, "VAR-LAW")
